@@ -8,5 +8,7 @@ import (
 
 func Run(tier string, seed int64, outDir string) *common.Meta {
 	s, dir := corpus.Get(tier, seed)
-	return corpus.MetaFor("C07", s, dir, outDir)
+	m := corpus.MetaFor("C07", s, dir, outDir)
+	cliStage(m, outDir)
+	return m
 }
